@@ -92,7 +92,11 @@ class CallMixin(ExecBase):
             c = s.unit.contracts.get(fi.name)
             if c is not None:
                 return c(s, p, args, kwargs, node)
-            if fi.parent is not None or fi.name in s.unit.inline:
+            if fi.parent is not None or fi.name in s.unit.inline or \
+                    (s.unit.options.get("auto_inline", True) and not fi.node.decorator_list and not fi.is_generator()
+                     and fi.name != s.unit.func):
+                # local closures, and plain (undecorated) helpers of the same module that have no contract of their own,
+                # are verified by inlining their real body at the call site
                 return s.inline(p, fi, args, kwargs, f.get("closure") or {}, node)
             raise Unsupported(f"call to {fi.name} without contract @ line {node.lineno}")
         if f.get("lam") is not None:
